@@ -22,6 +22,14 @@ ZeroMean(A, J) == \A j \in 1..J : ISum(1..Len(A), LAMBDA i : A[i][j]) = 0
 Orthogonal(A, J) == \A j, k \in 1..J : j # k => DotV(Col(A, j), Col(A, k)) = 0
 Sigma2(A, sizes, j) == sizes[j] * DotV(Col(A, j), Col(A, j))
 Distinct(A, sizes, J) == \A j, k \in 1..J : j # k => Sigma2(A, sizes, j) # Sigma2(A, sizes, k)
+(* soft masks: voxel v of block j carries the weight m_v in {1/2, 1}; the masked block vector is w_j = m restricted to B_j, so
+        sigma_j^2 = |w_j|^2 * sum_i A[i][j]^2,   component j = w_j / |w_j|,   projection^2 = A[i][j]^2 * |w_j|^2,
+   with |w_j|^2 = (#half)/4 + (#one).  W4 = 4 |w_j|^2 keeps everything integral; the mask enters the data exactly once
+   (fit AND transform see mask * image). *)
+W4(sizes, soft, j) == IF soft THEN (sizes[j] \div 2) + 4 * (sizes[j] - (sizes[j] \div 2)) ELSE 4 * sizes[j]
+Sigma2x4(A, sizes, soft, j) == W4(sizes, soft, j) * DotV(Col(A, j), Col(A, j))
+DistinctW(A, sizes, soft, J) == \A j, k \in 1..J : j # k => Sigma2x4(A, sizes, soft, j) # Sigma2x4(A, sizes, soft, k)
+RankW(A, sizes, soft, J, j) == 1 + Cardinality({k \in 1..J : Sigma2x4(A, sizes, soft, k) > Sigma2x4(A, sizes, soft, j)})
 (* order of the components: by decreasing sigma^2 *)
 Rank(A, sizes, J, j) == 1 + Cardinality({k \in 1..J : Sigma2(A, sizes, k) > Sigma2(A, sizes, j)})
 (* all ways to cut n rows into consecutive chunks *)
